@@ -307,6 +307,9 @@ func (r *Run) Violation(check string, c any, v Verdict) string {
 	b := canon(c)
 	h := sha256.Sum256(append([]byte(check+"\x00"), b...))
 	dir := filepath.Join(VerifRoot, "replays")
+	if d := os.Getenv("VERIF_REPLAY_DIR"); d != "" {
+		dir = d
+	}
 	os.MkdirAll(dir, 0o755)
 	path := filepath.Join(dir, fmt.Sprintf("%s-%s-%s.json", r.Property, check, hex.EncodeToString(h[:6])))
 	rf := replayFile{Property: r.Property, Check: check, Message: v.Fail, Sig: v.Sig, Seed: r.Seed, Case: b}
